@@ -18,6 +18,7 @@ except ImportError:      # imported with tools/props on sys.path
 
 PROP = "C19"
 LEVEL = "proof"
+INCLUDE = ['w7gen']   # wave 7 (lead, integration): tenmat.__init__ / sptenmat.__init__ generated from source (Gen/GenTenmat7.v, GenSptenmat7.v): bridges, acceptance / rejection laws (Props/W7C01*.v), differential stream of accepted and rejected constructor requests
 GEN_UNITS = ["GenUtils", "GenUtils2", "GenUtils3", "GenUtils3b", "GenMethods3", "GenKtensor4", "GenKtensor4b", "GenSptensor4"]
 COQ_TARGETS = ["Props/C19.vo", "Props/C19W4K.vo", "Props/C19W5.vo", "Props/C19W5K.vo", "Props/C19W5S.vo", "Props/C19W5F.vo", "Model/Harness.vo", "Props/W3C19.vo", "Props/W3C19b.vo"]
 THEOREM_FILES = ["Props/C19.v", "Props/C19W4K.v", "Props/C19W5.v", "Props/C19W5K.v", "Props/C19W5S.v", "Props/C19W5F.v", "Props/W3C19.v", "Props/W3C19b.v"]
